@@ -6,7 +6,9 @@
      parsers run on a parameter list before `ExprParams::new` (fix 5a79d8f-shaped: duplicate
      parameter names are a syntax error).
   2. `enter`          — the pending markers of `ObjValue::get_idx` (crates/jrsonnet-evaluator/src/
-     obj/mod.rs): `Pending`, `PendingAsserting`, with the `is_asserting` escape.
+     obj/mod.rs): `run_assertions` first, then `Pending` means self-dependence (round 4; the
+     round-3 repair had a second marker `PendingAsserting` and an `is_asserting` escape, the
+     original code only the escape).
   3. `shlK`           — the `(Num, Lhs, Num)` arm of `evaluate_binary_op_normal` with its `i64`/`u32`
      operations checked: `63 - exp as u32`, `1i64 << k`, unary `-` (C09's `shlOp` totalises them).
   4. `findSubstrK`    — `builtin_find_substr` with the checked `str.len() - pat.len()` and the
@@ -48,21 +50,20 @@ def paramsAccepted (ps : List Param) : Bool := (duplicateName ps).isNone
 inductive Mark where
   | vacant
   | pending
-  | pendingAsserting
   deriving Repr, DecidableEq, Inhabited
 
-/-- the `match cache.entry(..)` at the head of `get_idx` for an entry that is not `Cached`:
-    the new marker when the evaluation is (re-)entered, `none` = `InfiniteRecursionDetected` -/
-def enter (asserting : Bool) : Mark → Option Mark
+/-- the `match cache.entry(..)` at the head of `get_idx` (which runs AFTER `self.run_assertions()`)
+    for an entry that is not `Cached`: the new marker when the evaluation is entered,
+    `none` = `InfiniteRecursionDetected`.  `asserting` (the value `is_asserting(self)` would have)
+    no longer matters: assertions have run, or are running, before any field is marked. -/
+def enter (_asserting : Bool) : Mark → Option Mark
   | .vacant => some .pending
-  | .pending => if !asserting then none else some .pendingAsserting
-  | .pendingAsserting => none
+  | .pending => none
 
-/-- the same before the repair: a pending key was re-entered as often as asked while asserting -/
+/-- the original code: a pending key was re-entered as often as asked while asserting -/
 def enterOrig (asserting : Bool) : Mark → Option Mark
   | .vacant => some .pending
   | .pending => if !asserting then none else some .pending
-  | .pendingAsserting => none
 
 /-- a chain of nested (not yet finished) entries of one key, outermost first, each with the value
     of `is_asserting(self)` at that moment: how many of them are let through -/
